@@ -166,6 +166,11 @@ def control(proc, what, arg=None, who='ext'):
             ret = proc.future().cancel()
         elif what == 'status':
             ret = proc.set_status(arg)
+        elif what == 'unlisten':
+            # the process takes the listener off itself (again): removing a listener that is not (any more) there is fine
+            ret = proc.remove_process_listener(w.extra.get('main_listener'))
+        elif what == 'add_cleanup':
+            ret = proc.add_cleanup(lambda: None)
         elif what == 'out':
             ret = proc.out(arg[0], dec(arg[1]))  # an output emitted from a hook (a summary written at the very end)
         elif what == 'close':
@@ -516,6 +521,21 @@ class ProgBase(HookMixin, ContextMixin, Process):
             finally:
                 self.loop.untracked = False
             self._t('launched', idx, child=item[1])
+        elif kind == 'helper':
+            # raw asyncio code started by the step (a fire-and-forget helper task that may outlive it): what it sees as the
+            # current process is what it saw when it started, whatever the step that spawned it does afterwards
+            w = world.cur()
+            samples = w.extra.setdefault('helper_samples', {}).setdefault((self.pid, item[1]), [])
+
+            async def helper(n=item[2] if len(item) > 2 else 6):
+                for _ in range(n):
+                    cur = Process.current()
+                    samples.append(None if cur is None else cur.pid)
+                    await asyncio.sleep(0)
+
+            task = asyncio.ensure_future(helper())
+            task._pv_owned = True
+            w.extra.setdefault('helper_tasks', []).append(task)
         elif kind == 'gc':
             import gc
 
@@ -783,10 +803,22 @@ def make_class(program, base=None):
         from .models import ports as port_model
 
         namespace['_spec_class'] = port_model.spec_class_for(program['spec']['sep'])
+    elif (program.get('spec') or {}).get('strict_ports'):
+        from .models import ports as port_model
+
+        namespace['_spec_class'] = port_model.strict_spec_class()
     for idx, step in enumerate(steps):
         namespace[step_name(idx)] = _make_step(idx, bool(step.get('async')))
     if program.get('eager_waiting') or program.get('interruptible_running') or program.get('sampling_waiting') or program.get('failing_state_exit'):
         namespace['get_state_classes'] = classmethod(_eager_state_classes)
+    if program.get('initial') is not None:
+        # an application that starts its first step with arguments (create_initial_state() is the documented place)
+        init_args, init_kwargs = program['initial']
+
+        def create_initial_state(self):
+            return self.get_state_class(process_states.ProcessState.CREATED)(self, self.run, *dec(init_args), **dec(init_kwargs))
+
+        namespace['create_initial_state'] = create_initial_state
     if program.get('value_eq') is not None:
         # processes that compare by value (jobs ordered / de-duplicated by a priority): equal is not identical
         rank = program['value_eq']
